@@ -555,6 +555,8 @@ def run(ctx: Ctx) -> None:
         _r043(ctx)
     with ctx.part():
         _r043_values(ctx)
-    from .c06 import code_state_rule
+    from .c06 import code_state_rule, frozen_rule
     with ctx.part():
         code_state_rule(ctx, 'R04.4')
+    with ctx.part():
+        frozen_rule(ctx, 'R04.4', 'panqec.codes')
